@@ -810,3 +810,47 @@ def the_reconnect_loop_asks_for_shutdown_before_every_attempt(ctx):
                       'before the first attempt) the loop goes on and connects a client that was shut down meanwhile', f)
     if not n:
         raise AnchorMissing('reconnect loop (a while loop calling connect() in a thread entry of SecopClient) not found')
+
+
+@rule('C11.R17', min_instances=1)
+def a_failing_user_callback_can_not_reach_the_worker_threads(ctx):
+    """ProxyClient.callback runs user code from the receive thread (updateValue for every update and reply, _unhandled_message) and
+    from disconnect().  The handler that catches a failing callback is itself unable to raise: whatever it evaluates - the text
+    `f'... {args}: {e}'` calls __repr__ / __str__ of user objects - sits inside a try with a catch-all of its own.  Formatted
+    outside, a callback whose exception has a raising __str__ drops the reply before it is matched (the caller times out), ends
+    the receive thread, and makes disconnect() raise before the queues are drained"""
+    from sa.lib import handler_catches_all
+    m = ctx.m
+    f = m.method('frappy.client.ProxyClient', 'callback', inherited=False)
+    ctx.analysed(f)
+    n = 0
+
+    def risky(stmts):
+        out = []
+        for st in stmts:
+            if isinstance(st, ast.Try) and any(handler_catches_all(h) for h in st.handlers):
+                for h in st.handlers:
+                    out += risky(h.body)
+                out += risky(st.orelse) + risky(st.finalbody)
+                continue
+            if isinstance(st, ast.If):
+                out += [x for x in ast.walk(st.test) if isinstance(x, (ast.Call, ast.FormattedValue))]
+                out += risky(st.body) + risky(st.orelse)
+                continue
+            if isinstance(st, (ast.Pass, ast.Continue, ast.Break)):
+                continue
+            out += [x for x in ast.walk(st) if isinstance(x, ast.FormattedValue) or (isinstance(x, ast.Call) and not src(x.func).endswith(('log.debug', 'log.info', 'log.warning', 'log.error')))]
+        return out
+    for t in [x for x in body_walk(f.node) if isinstance(x, ast.Try)]:
+        if not any(isinstance(c.func, ast.Name) and any(isinstance(a, ast.Starred) for a in c.args) for st in t.body for c in calls_in(st)):
+            continue        # (the try around the call of the registered function `cbfunc(*args)`)
+        for h in t.handlers:
+            if not handler_catches_all(h):
+                continue
+            n += 1
+            r = risky(h.body)
+            ctx.check(not r, f'{f.qualname}:the handler of a failing callback can not raise', r[0] if r else h, 'everything the handler evaluates is inside its own catch-all',
+                      f'`{src(r[0]) if r else ""}` is evaluated in the handler outside a try of its own: a user exception (or argument) whose __str__ / __repr__ raises escapes from '
+                      'callback() into the receive thread / into disconnect()', f)
+    if not n:
+        raise AnchorMissing('catch-all handler around the call of the registered callback not found in ProxyClient.callback')
